@@ -7,6 +7,9 @@ import ZenonVerif.Model.Proto
 import ZenonVerif.Model.Consensus
 import ZenonVerif.Model.Rewards
 import ZenonVerif.Model.RewardEpoch
+import ZenonVerif.Model.EpochCursor
+import ZenonVerif.Model.Sync
+import ZenonVerif.Model.Verify
 import ZenonVerif.Props.C18
 import ZenonVerif.Props.C14
 /-
@@ -581,5 +584,175 @@ theorem NetworkQsrRewardPerEpoch_translation_refines_model (e : BitVec 64) :
     cases hh : Gen.NetworkQsrRewardConfig[e.toNat / 30]? with
     | none => rw [hh] at this; simp at this
     | some v => rw [hh] at this; simp only [Option.map_some, Option.some.injEq] at this; simp only [rewardEmb, this]
+
+/-! ### C11 — the epoch cursor -/
+
+theorem epochUpdate_nextEpoch_translation_refines_model (last : BitVec 64) :
+    (Translated.epochUpdate_nextEpoch last).toInt = Rewards.wrap64 (last.toInt + 1) ∧
+    Translated.epochUpdate_advance last = .ok (Translated.epochUpdate_nextEpoch last) := by
+  have h1 : (1#64).toInt = 1 := by decide
+  exact ⟨by unfold Translated.epochUpdate_nextEpoch; rw [toInt_add_wrap, h1], rfl⟩
+
+/-- the test of `CanPerformEpochUpdate` is `EpochCursor.tooRecent` when `epochEnd` is the end of epoch `cursor + 1` and the
+    int64 sum `end + RewardTimeLimit` does not overflow -/
+theorem epochUpdate_tooRecent_translation_refines_model (c : EpochCursor.Cfg) (cursor : Int) (ts e : BitVec 64)
+    (hr : c.rtl = Gen.RewardTimeLimit) (he : e.toInt = EpochCursor.epochEnd c (cursor + 1))
+    (hno : e.toInt + Gen.RewardTimeLimit < (two63 : Int)) :
+    Translated.epochUpdate_tooRecent ts e = if EpochCursor.tooRecent c cursor ts.toInt then .exit 0 else .ok () := by
+  unfold Translated.epochUpdate_tooRecent EpochCursor.tooRecent
+  have hR : (Translated.vm_constants_RewardTimeLimit_init).toInt = Gen.RewardTimeLimit := by decide
+  have hlo : -(9223372036854775808 : Int) ≤ e.toInt := by have := e.isLt; rw [toInt_eq]; split <;> omega
+  rw [toInt_add_wrap, hR, hr, ← he]
+  have : Rewards.wrap64 (e.toInt + Gen.RewardTimeLimit) = e.toInt + Gen.RewardTimeLimit := by
+    unfold Rewards.wrap64; simp only [two63, two64, Gen.RewardTimeLimit] at *; omega
+  rw [this]
+
+/-! ### C12 — base cost of a plain send, the three inequalities of `enoughPlasma` -/
+
+theorem basePlasma_plainSend_translation_refines_model (d : BitVec 64) (hd : d.toNat < two63) :
+    Translated.basePlasma_plainSend d = (match Pow.basePlasmaChecked false none d.toNat with
+      | none => (0#64, some "ErrABDataTooBig")
+      | some v => (BitVec.ofNat 64 v, none)) := by
+  unfold Translated.basePlasma_plainSend Pow.basePlasmaChecked Pow.basePlasma
+  simp only [two63] at hd
+  have hi : d.toInt = (d.toNat : Int) := by rw [toInt_eq]; split <;> omega
+  have h16 : (16384#64).toInt = 16384 := by decide
+  simp only [hi, h16, Gen.MaxDataLength, Gen.ABByteDataPlasma, Gen.AccountBlockBasePlasma, decide_eq_true_eq, Bool.false_eq_true, if_false]
+  by_cases h : (d.toNat : Int) > 16384
+  · have h' : d.toNat > 16384 := by omega
+    simp only [h, h', if_true]
+  · have h' : ¬ d.toNat > 16384 := by omega
+    simp only [h, h', if_false]
+    have e1 : (d * 68#64 + 21000#64).toNat = d.toNat * 68 + 21000 := by bv_omega
+    have e2 : (BitVec.ofNat 64 (d.toNat * 68 + 21000)).toNat = d.toNat * 68 + 21000 := by
+      rw [BitVec.toNat_ofNat]; omega
+    have e3 : d * 68#64 + 21000#64 = BitVec.ofNat 64 (d.toNat * 68 + 21000) := BitVec.eq_of_toNat_eq (by rw [e1, e2])
+    rw [e3]
+
+/-- the three fragments of `vm.enoughPlasma`, run one after the other, are `Pow.enoughPlasma` once `AvailablePlasma` answered -/
+theorem enoughPlasma_translation_refines_model (q : Int) (cm uc : Nat) (avail fused diff base : BitVec 64) (junk : BitVec 64)
+    (ha : Pow.availablePlasma q cm uc = some avail.toNat) :
+    (match Translated.enoughPlasma_fused avail fused with
+     | .ok () => (match Translated.enoughPlasma_total diff fused junk with
+        | .ok total => (match Translated.enoughPlasma_base total base with
+            | .ok () => Pow.PlasmaVerdict.ok total.toNat
+            | _ => .notEnoughTotal)
+        | _ => .limitReached)
+     | _ => .notEnoughPlasma) = Pow.enoughPlasma q cm uc fused.toNat diff.toNat base.toNat := by
+  obtain ⟨T, hTd⟩ : ∃ T, T = Translated.DifficultyToPlasma diff + fused := ⟨_, rfl⟩
+  have hT : T.toNat = (Pow.difficultyToPlasma diff.toNat + fused.toNat) % two64 := by
+    rw [hTd, BitVec.toNat_add, DifficultyToPlasma_translation_refines_model]; rfl
+  have htot : Translated.enoughPlasma_total diff fused junk = if 10500000 < T.toNat then .exit 0 else .ok T := by
+    unfold Translated.enoughPlasma_total
+    simp only [← hTd, BitVec.lt_def, gt_iff_lt, decide_eq_true_eq]; rfl
+  rw [htot]
+  unfold Pow.enoughPlasma Translated.enoughPlasma_fused Translated.enoughPlasma_base
+  rw [ha]
+  simp only [BitVec.lt_def, gt_iff_lt, decide_eq_true_eq, ← hT, Gen.MaxPlasmaForAccountBlock]
+  by_cases h1 : avail.toNat < fused.toNat
+  · simp [h1]
+  · by_cases h2 : 10500000 < T.toNat
+    · simp [h1, h2]
+    · by_cases h3 : T.toNat < base.toNat
+      · simp [h1, h2, h3]
+      · simp [h1, h2, h3]
+
+/-! ### C05 / C03 — comparisons of the verifiers -/
+
+theorem momentum_timestamp_translation_refines_model (ts prevTs tsU : BitVec 64) :
+    Translated.momentum_timestampMissing ts = (if ts.toInt = 0 then .exit 0 else .ok ()) ∧
+    Translated.momentum_timestampNotIncreasing prevTs tsU = (if prevTs.toNat ≥ tsU.toNat then .exit 0 else .ok ()) := by
+  unfold Translated.momentum_timestampMissing Translated.momentum_timestampNotIncreasing
+  have h0 : (ts == 0#64) = true ↔ ts.toInt = 0 := by simp only [beq_iff_eq, ← BitVec.toInt_inj]; rfl
+  simp only [h0, BitVec.le_def, ge_iff_le, decide_eq_true_eq, and_self]
+
+theorem accountBlock_heightChecks_translation_refines_model (b : Verify.Blk) (hh : b.h < two64) :
+    Translated.accountBlock_heightChecks (BitVec.ofNat 64 b.h) b.phz
+      = (match Verify.firstErr (Verify.heightChecks b) with
+         | .error .abMHeightMissing => .exit 0
+         | .error .abPrevHashMustBeZero => .exit 1
+         | .error .abPrevHashMissing => .exit 2
+         | _ => .ok ()) := by
+  unfold Translated.accountBlock_heightChecks Verify.heightChecks
+  have e0 : (BitVec.ofNat 64 b.h == 0#64) = (b.h == 0) := by
+    simp only [two64] at hh; rw [Bool.eq_iff_iff]; simp only [beq_iff_eq, ← BitVec.toNat_inj, BitVec.toNat_ofNat]; omega
+  have e1 : (BitVec.ofNat 64 b.h == 1#64) = (b.h == 1) := by
+    simp only [two64] at hh; rw [Bool.eq_iff_iff]; simp only [beq_iff_eq, ← BitVec.toNat_inj, BitVec.toNat_ofNat]; omega
+  have e2 : (BitVec.ofNat 64 b.h != 1#64) = (b.h != 1) := by simp only [bne, e1]
+  rw [e0, e1, e2]
+  cases h0 : (b.h == 0) <;> cases h1 : (b.h == 1) <;> cases hz : b.phz <;>
+    simp_all [Verify.firstErr, Verify.chk, bne]
+
+theorem insertChain_window_translation_refines_model (fr tg tl : BitVec 64) :
+    Translated.insertChain_window fr tg tl =
+      (if Proto.sub64 fr.toNat tg.toNat > Gen.InsertChainWindow then .exit 0
+       else if tl.toNat ≤ fr.toNat then .exit 1 else .ok ()) ∧
+    (∀ h : BitVec 64, (Translated.insertChain_targetHeight h).toNat = Sync.pred64 h.toNat) := by
+  constructor
+  · unfold Translated.insertChain_window Proto.sub64
+    have hs : (fr - tg).toNat = if tg.toNat ≤ fr.toNat then fr.toNat - tg.toNat else two64 - (tg.toNat - fr.toNat) := by
+      simp only [two64]; split <;> bv_omega
+    simp only [BitVec.lt_def, BitVec.le_def, gt_iff_lt, decide_eq_true_eq, hs, Gen.InsertChainWindow, BitVec.toNat_ofNat]
+  · intro h; unfold Translated.insertChain_targetHeight Sync.pred64; simp only [two64]; split <;> bv_omega
+
+/-- the two amount bounds of `accountBlockVerifier.amounts` (`Sign() == -1`, `BitLen() > 255`) for a non-nil amount whose
+    bit length fits an `int` (it always does in a running process) -/
+theorem accountBlock_amountBounds_translation_refines_model (a : Int) (hfit : Nat.log2 a.natAbs + 1 < two63) :
+    Translated.accountBlock_amountBounds a
+      = if a < 0 then .exit 0 else if Verify.amountTooBig a then .exit 1 else .ok () := by
+  unfold Translated.accountBlock_amountBounds Verify.amountTooBig
+  have hs : (Go.bigSign a == 18446744073709551615#64) = decide (a < 0) := by
+    unfold Go.bigSign Go.bigCmp
+    by_cases h1 : a < 0
+    · simp [h1]
+    · by_cases h2 : a = 0
+      · simp [h2]
+      · simp [h1, h2]
+  have h255 : (255#64).toInt = 255 := by decide
+  have hb : (Go.bigBitLen a).toInt > 255 ↔ a.natAbs ≥ 2 ^ 255 := by
+    unfold Go.bigBitLen
+    simp only [two63] at hfit
+    by_cases h0 : a = 0
+    · subst h0; simp
+    · have hn : a.natAbs ≠ 0 := by omega
+      have hl := Nat.log2_lt (n := a.natAbs) (k := 255) hn
+      simp only [h0, if_false]
+      rw [toInt_eq]
+      simp only [BitVec.toNat_ofNat]
+      have : (Nat.log2 a.natAbs + 1) % 2 ^ 64 = Nat.log2 a.natAbs + 1 := by omega
+      rw [this]
+      split <;> omega
+  simp [hs, h255, hb, Gen.AmountMaxBitLen]
+
+/-- shape of a page-size guard with bound `m`: `if pageSize > m { return … }` -/
+def guardSpec (m : BitVec 32) : BitVec 32 → Res Unit := fun c => if decide (c > m) then .exit 0 else .ok ()
+
+/-- C18: EVERY paged getter of rpc/api and rpc/api/embedded (27 functions with a `pageSize uint32` parameter) contains a
+    guard `if pageSize > m { return … }` with `m ≤ RpcMaxPageSize` (`m = RpcMaxPageSize`, or the stricter
+    `unreceivedMaxPageSize = 50` of `GetUnreceivedBlocksByAddress`): whatever passes it is at most `RpcMaxPageSize` -/
+theorem pageGuards_translation_refines_model :
+    Translated.unguardedPagedGetters = [] ∧
+    ∀ g ∈ Translated.pageGuards, ∃ m : BitVec 32, m.toNat ≤ Gen.RpcMaxPageSize ∧
+      ∀ c : BitVec 32, g.2 c = if c.toNat > m.toNat then .exit 0 else .ok () := by
+  refine ⟨by decide, ?_⟩
+  have key : ∀ m c : BitVec 32, guardSpec m c = if c.toNat > m.toNat then .exit 0 else .ok () := by
+    intro m c; unfold guardSpec
+    simp only [BitVec.lt_def, gt_iff_lt, decide_eq_true_eq]
+  have all : ∀ g ∈ Translated.pageGuards, g.2 = guardSpec 1024#32 ∨ g.2 = guardSpec 50#32 := by
+    simp only [Translated.pageGuards, List.forall_mem_cons]
+    repeat (refine ⟨by first | exact Or.inl rfl | exact Or.inr rfl, ?_⟩)
+    intro g hg; cases hg
+  intro g hg
+  rcases all g hg with h | h
+  · exact ⟨1024#32, by decide, fun c => by rw [h]; exact key _ c⟩
+  · exact ⟨50#32, by decide, fun c => by rw [h]; exact key _ c⟩
+
+example : Translated.pageGuards.length = 27 := by decide
+
+example : ∃ (q : Int) (cm uc : Nat) (avail : BitVec 64), Pow.availablePlasma q cm uc = some avail.toNat :=
+  ⟨0, 5, 0, 5#64, by decide⟩
+
+example : ∃ a : Int, Nat.log2 a.natAbs + 1 < two63 ∧ Translated.accountBlock_amountBounds a = .exit 1 :=
+  ⟨2 ^ 255, by decide, by decide⟩
 
 end ZV.Translated
